@@ -37,7 +37,11 @@ MonInit == [cfg |-> [assocs |-> <<>>], sc |-> "", viol |-> <<>>,
             runPoll |-> [a |-> 0, pid |-> -1],
             nout |-> 0, link |-> [on |-> FALSE, t |-> 0, a |-> 0],
             act |-> <<>>,           \* <<[a, t]>> last link activity
-            served |-> 0, waiting |-> {}, since |-> <<>>, sawIin |-> FALSE]
+            served |-> 0, waiting |-> {}, since |-> <<>>, sawIin |-> FALSE,
+            runId |-> 0,            \* id of the user request whose task is running (0: none / an automatic task)
+            runA |-> 0,             \* association of the outstanding request
+            ghost |-> FALSE]        \* the outstanding request belongs to an association that has been removed: its end
+                                    \* (answer, timeout) is not reported to anybody
 V(m, reason, l, ctx) == [m EXCEPT !.viol = Append(@, Viol("C19", reason, l, m.sc, ctx))]
 
 Quiet(cfg) == \A i \in 1..Len(cfg.assocs) : ~cfg.assocs[i].dis /\ ~cfg.assocs[i].integ /\ ~cfg.assocs[i].en
@@ -52,8 +56,8 @@ DropId(q, id) == SelectSeq(q, LAMBDA r : r.id # id)
 LinkExpire(m, t) == IF m.link.on /\ IsAssoc(m.cfg, m.link.a) /\ t >= m.link.t + ACfg(m.cfg, m.link.a).rt
                       THEN [m EXCEPT !.link.on = FALSE, !.nout = 0] ELSE m
 
-Begin(m, l, what) == IF m.nout > 0 THEN V(m, "two-outstanding", l, "request started while another one is outstanding: " \o what)
-                     ELSE [m EXCEPT !.nout = 1]
+Begin(m, l, what) == IF m.nout > 0 /\ ~m.ghost THEN V(m, "two-outstanding", l, "request started while another one is outstanding: " \o what)
+                     ELSE [m EXCEPT !.nout = 1, !.ghost = FALSE]
 
 \* ---- items of a line in order: callbacks and link status requests
 CbItem(m0, e, c, l) ==
@@ -62,7 +66,7 @@ CbItem(m0, e, c, l) ==
     ELSE
     LET a == c.i[1] IN
     IF c.n = "task_start" THEN
-        LET m1 == Begin(m, l, c.s)
+        LET m1 == [Begin(m, l, c.s) EXCEPT !.runA = a]
             \* a time synchronisation is a user task only if one is at the head of the association's queue;
             \* otherwise it is the automatic one of the start-up sequence
             userTask == KindOfName(c.s) # "" /\ (c.s # "TimeSync" \/ (QOf(m, a) # <<>> /\ QOf(m, a)[1].kind = "time"))
@@ -81,7 +85,7 @@ CbItem(m0, e, c, l) ==
                 q1 == DropId(m3.Q, victim)
                 addrs == {q1[i].a : i \in 1..Len(q1)}
                 wnow == {[a |-> b, id |-> SelectSeq(q1, LAMBDA r : r.a = b)[1].id] : b \in addrs}
-            IN [m3 EXCEPT !.Q = q1, !.served = a, !.waiting = wnow,
+            IN [m3 EXCEPT !.Q = q1, !.served = a, !.waiting = wnow, !.runId = IF victim = -1 THEN 0 ELSE victim,
                           !.since = Append(SelectSeq(@, LAMBDA r : r.a # a), [a |-> a, w |-> wnow])]
         ELSE IF c.s = "PeriodicPoll" THEN
             LET xs == SelectSeq(e.tx, LAMBDA x : x.fc = 1 /\ x.dst = a /\ x.t = c.t)
@@ -105,11 +109,12 @@ LtxItem(m0, e, x, l) ==
         a == x.dst
         qa == QOf(m, a)
         user == qa # <<>> /\ qa[1].kind = "link_status"
-        m1 == Begin(m, l, "link status")
+        m1 == [Begin(m, l, "link status") EXCEPT !.runA = a]
         ka == IF IsAssoc(m.cfg, a) THEN ACfg(m.cfg, a).ka ELSE -1
         m2 == IF ~user /\ (ka < 0 \/ x.t < ActOf(m, a) + ka)
                 THEN V(m1, "keepalive-early", l, "link status request before the configured silence") ELSE m1
     IN [m2 EXCEPT !.Q = IF user THEN DropId(@, qa[1].id) ELSE @, !.link = [on |-> TRUE, t |-> x.t, a |-> a],
+                  !.runId = IF user THEN qa[1].id ELSE 0,
                   !.served = IF user THEN a ELSE 0]
 
 RECURSIVE Walk(_, _, _, _, _)
@@ -139,24 +144,27 @@ MonStep(m, e, l) ==
                       refused == \E i \in 1..Len(e.done) : e.done[i].id = r.id
                   IN CASE r.kind \in TaskKinds /\ ~refused ->
                               [mA EXCEPT !.Q = Append(@, [id |-> r.id, kind |-> r.kind, a |-> r.a, t |-> e.t])]
-                       [] r.kind = "poll_add" ->
+                       [] r.kind = "poll_add" /\ (\E i \in 1..Len(e.done) : e.done[i].id = r.id /\ e.done[i].res = "ok") ->
                               [mA EXCEPT !.polls = Append(@, [a |-> r.a, pid |-> r.pid, period |-> r.period,
                                                               next |-> e.t + r.period, dem |-> FALSE])]
                        [] r.kind = "poll_demand" ->
                               LET i == PollIx(mA, r.a, r.pid) IN IF i = 0 THEN mA ELSE [mA EXCEPT !.polls[i].dem = TRUE]
                        [] r.kind = "assoc_remove" ->
-                              [mA EXCEPT !.polls = SelectSeq(@, LAMBDA p : p.a # r.a), !.Q = SelectSeq(@, LAMBDA q : q.a # r.a)]
+                              [mA EXCEPT !.polls = SelectSeq(@, LAMBDA p : p.a # r.a), !.Q = SelectSeq(@, LAMBDA q : q.a # r.a),
+                                         !.ghost = @ \/ (mA.nout > 0 /\ mA.runA = r.a)]
                        [] OTHER -> mA
               ELSE mA
-        mI == Walk(mQ, e, e.cb, e.ltx, l)
+        ids == {e.done[i].id : i \in 1..Len(e.done)}
+        mQ1 == IF mQ.runId # 0 /\ mQ.runId \in ids THEN [mQ EXCEPT !.nout = 0, !.runId = 0, !.link.on = FALSE] ELSE mQ
+        mI0 == Walk(mQ1, e, e.cb, e.ltx, l)
+        mI == IF mI0.runId # 0 /\ mI0.runId \in ids THEN [mI0 EXCEPT !.nout = 0, !.runId = 0, !.link.on = FALSE] ELSE mI0
         mE == LinkExpire(mI, LineEnd(e))
         \* completions take requests out of the queue (disconnect, disable, removal)
-        ids == {e.done[i].id : i \in 1..Len(e.done)}
         mD == [mE EXCEPT !.Q = SelectSeq(@, LAMBDA r : r.id \notin ids),
                          !.nout = IF e.k \in {"cut", "disable"} THEN 0 ELSE @,
                          !.link.on = IF e.k \in {"cut", "disable"} THEN FALSE ELSE @]
         due == \E i \in 1..Len(mD.polls) : mD.polls[i].dem \/ mD.polls[i].next <= LineEnd(e)
-        mS == IF up1 /\ m.up /\ mD.nout = 0 /\ mD.Q = <<>> /\ due /\ Quiet(m.cfg) /\ ~mD.sawIin /\ ~e.panic
+        mS == IF up1 /\ m.up /\ mD.nout = 0 /\ ~mD.ghost /\ mD.Q = <<>> /\ due /\ Quiet(m.cfg) /\ ~mD.sawIin /\ ~e.panic
                 THEN V(mD, "poll-starved", l, "channel idle although a periodic poll is due") ELSE mD
     IN [mS EXCEPT !.up = up1, !.pipe = pipe1, !.en = en1]
 
